@@ -78,6 +78,10 @@ VCounter(s, e) ==
 VEdges(s, e) == IF SeqToSet(e.edges) = EdgeSet(JumpRowsOfHist(s.hist, e.m)) /\ Len(e.edges) = Cardinality(SeqToSet(e.edges))
                 THEN <<"ok", s>> ELSE <<"graph-edges", s>>
 
+(* to_graph: the recovered count on edge (u, v) is the number of jumps u -> v *)
+VEdgeCounts(s, e) == LET rows == JumpRowsOfHist(s.hist, e.m) IN
+  IF \A k \in DOMAIN e.counts : e.counts[k][3] = CountMoves(rows, e.counts[k][1], e.counts[k][2]) THEN <<"ok", s>> ELSE <<"graph-edge-weights", s>>
+
 VOcc(s, e) == IF \A k \in 1..Len(e.num) : e.num[k] = OccNum(s.hist, k - 1) THEN <<"ok", s>> ELSE <<"occupancy", s>>
 
 VAtomLoc(s, e) ==
@@ -160,6 +164,7 @@ Verdict(s, e) ==
     [] e.act = "Counter" -> VCounter(s, e)
     [] e.act = "Edges" -> VEdges(s, e)
     [] e.act = "Occ" -> VOcc(s, e)
+    [] e.act = "EdgeCounts" -> VEdgeCounts(s, e)
     [] e.act = "AtomLoc" -> VAtomLoc(s, e)
     [] e.act = "OccType" -> VOccType(s, e)
     [] e.act = "JumpDiff" -> VJumpDiff(s, e)
